@@ -1612,6 +1612,10 @@ def build(template_text: str, repo: str, unit: str) -> Built:
             try:
                 item, impl = sf.find(impl=a.get("impl"), kind="fn", name=a["fn"])
             except AnchorLost as e:
+                if a.get("optional") == "1":
+                    # an item that exists only in an alternative shape of the code (e.g. a hand-written impl in place of a derive)
+                    report.append(dict(item=f"{a.get('impl','')}::{a['fn']}", src=rel, sha256="", rewrites=["optional item not present: skipped"]))
+                    continue
                 if ex.fallback:
                     emit(f"// ---- item lost ({e}); fallback text from the unit template ----")
                     emit("\n".join(f_[3] for f_ in ex.fallback))
@@ -1715,6 +1719,19 @@ def build(template_text: str, repo: str, unit: str) -> Built:
             else:
                 item, _ = sf.find(kind=kind, name=a[kind])
             start = item.attr_start if a.get("attrs") == "keep" else item.start
+            if a.get("requires_derive"):
+                # the unit's doubles rely on derived traits of this type (structural `==` / hashing of a map key): each must
+                # still be derived, or be implemented by hand in the same file (then the template holds that impl to a
+                # contract through an `optional=1` extraction)
+                attrs = text_of(sf.toks[item.attr_start:item.start])
+                derived = set(x.strip() for mm in re.finditer(r"derive\s*\(([^)]*)\)", attrs) for x in mm.group(1).split(","))
+                for tr in a["requires_derive"].replace(",", " ").split():
+                    if tr in derived:
+                        continue
+                    hand = re.search(r"impl\s+(std::\w+::|core::\w+::)?" + re.escape(tr) + r"\s+for\s+" + re.escape(a[kind]) + r"\b", sf.text if hasattr(sf, "text") else text_of(sf.toks))
+                    if not hand:
+                        raise AnchorLost(f"{rel}: {kind} {a[kind]} no longer derives {tr} and no hand-written impl was found (the unit assumes it)")
+                    rep.append(("R13", f"{a[kind]}: `{tr}` is implemented by hand instead of derived (see the optional extraction of the impl)"))
             toks = list(sf.toks[start:item.end])
             src_sha = hashlib.sha256(text_of(sf.toks[item.start:item.end]).encode()).hexdigest()
             toks = rw_strip_comments(toks, rep)
